@@ -175,6 +175,18 @@ CHECKS['C11'] = dict(
     note=TB + 'NumPy bit generator and third-party decoders exercised, not modelled; unseeded default generator (rng=None) not covered.',
     technique='Coq theorems (trial record relations, bookkeeping state machine, stream discipline) + kernel-evaluated trial correspondence; calibration statistical')
 
+CHECKS['C10'] = dict(
+    category='proof',
+    text=('Unbounded Coq theorems on the automaton (signs, correction): if flipping an edge toggles exactly the faces anticommuting with '
+          'Z on that edge, then after every finite sequence of flips the tracked signs equal the face syndrome of error + correction; the '
+          'correction is Z-only; an edge flipped twice is removed; no excitation left implies a clean face syndrome; the pre-fix assignment '
+          'variant is refuted. Kernel-evaluated: the geometry hypothesis for every edge of every lattice in the grid (the faces the real '
+          'flip_edge toggles vs the dumped parity-check matrix), and full decode traces (every flip, the signs after every sweep, the '
+          'returned correction) replayed by the model. RotatedToric3D geometry is a listed known finding (D3).'),
+    design_ref='DESIGN.md section 5 C10',
+    note=TB + 'Traces are recorded by wrapping flip_edge/sweep_move from outside; the sweep RULE (which edge is chosen) is not modelled and need not be.',
+    technique='Coq theorem (invariant of the flip automaton for all flip sequences) + kernel-evaluated geometry and trace replay')
+
 NOT_APPLICABLE = {}
 
 PENDING = ['C02', 'C03', 'C04', 'C05', 'C06', 'C07', 'C08', 'C09', 'C10', 'C11', 'C12', 'C13', 'C14', 'C15',
